@@ -4,7 +4,7 @@ import FitProps.EndToEndFieldLemmas
 Field layer of the RE-ENCODING direction of C01: what `Fit.DecApi.decodeField` / `decodeDevField` return for ARBITRARY bytes
 (`interpField_good`, `interpDev_good`): the decoded field carries the factory's attributes, its value is well-formed, lies
 outside the finding classes of the forward direction under the flags the decoder will read it with when it is written again
-(`Fit.E2E.readAs` / `devReadAs`), and — outside the two classes `kfUndersizedF`, `kfPiecesF`/`kfPiecesD` — is its own
+(`Fit.E2E.readAs` / `devReadAs`), and — outside the class `kfPiecesF`/`kfPiecesD` — is its own
 wire-normal form. Includes the fallback for undersized fields (`convertBytesToValue`: bounds of the assembled number and of
 the uint→float conversions).
 -/
@@ -130,6 +130,31 @@ theorem convert_shape (b : List Nat) (arch bt : Nat) (ib : Bool) (hb : Bytes b) 
            | (have := natToF64_lt (asmU64 arch b) (Nat.lt_of_lt_of_le ha hp); omega)
            | omega)
 
+/-- a number of a base type two or more bytes wide, appended to no array (`valueAppend(proto.Value{}, v)`), is the array
+of that one number -/
+theorem valueAppend_scalarOf (bt : Nat) (ib : Bool) (x : Nat) (hn : NumBt bt) (h2 : 2 ≤ btSize bt) :
+    valueAppend .invalid (scalarOf bt ib x) = sliceOf bt ib [x] := by
+  obtain ⟨t0, t1, t2, t3, t4, t5, t6, t7, t8, t9, t10, t11, t12, t13, t14, t15, t16⟩ := btSize_lits
+  rcases numBt_cases bt hn with h' | h' | h' | h' | h' | h' | h' | h' | h' | h' | h' | h' | h' | h' | h' | h' <;> subst h' <;>
+    simp only [t0, t1, t2, t3, t4, t5, t6, t7, t8, t9, t10, t11, t12, t13, t14, t15, t16, btEnum, btSint8, btByte, btUint8, btUint8z,
+      btSint16, btUint16, btUint16z, btSint32, btUint32, btUint32z, btSint64, btUint64, btUint64z, btFloat32, btFloat64] at h2 <;>
+    first
+      | omega
+      | simp [scalarOf, sliceOf, valueAppend]
+
+/-- the fallback value for an undersized field: ONE number of the field's base type, and for an array field (`wrap`) the
+array of that one number -/
+theorem undersized_shape (wrap : Bool) (b : List Nat) (arch bt : Nat) (ib : Bool) (hb : Bytes b) (hn : NumBt bt) (h0 : 0 < b.length)
+    (hl : b.length < btSize bt) :
+    ∃ x, undersizedValue wrap b arch bt = (if wrap = true then sliceOf bt ib [x] else scalarOf bt ib x) ∧ x < 256 ^ btSize bt := by
+  obtain ⟨x, hx, hlt⟩ := convert_shape b arch bt ib hb hn h0 hl
+  refine ⟨x, ?_, hlt⟩
+  unfold undersizedValue
+  simp only [hx]
+  cases wrap with
+  | false => simp
+  | true => simp only [if_true]; exact valueAppend_scalarOf bt ib x hn (by omega)
+
 /-! ### what a read of at least one element returns -/
 
 /-- the value `UnmarshalValue` returns for `n` bytes (at least one element's worth) read under `(bt, isBool, arr)` -/
@@ -193,17 +218,21 @@ theorem valueOfBytes_ok {b : List Nat} {arch bt : Nat} {ib arr ovr : Bool} {v : 
   · cases h
   · cases h
 
-/-- the value a definition of non-zero size yields: the read, converted when the field is undersized -/
-def readValueOf (b : List Nat) (arch size bt : Nat) (ib arrF ovr : Bool) : Res Value :=
+/-- the value a definition of non-zero size yields: the read, converted when the field is undersized (`wrap`: the converted
+number is returned as an array of one element — `decodeFields` for an array field; `decodeDeveloperFields` never) -/
+def readValueOf (wrap : Bool) (b : List Nat) (arch size bt : Nat) (ib arrF ovr : Bool) : Res Value :=
   (valueOfBytes b arch (readShape size bt ib arrF).1 (readShape size bt ib arrF).2.1 (readShape size bt ib arrF).2.2 ovr).bind fun v0 =>
-    .ok (if (readShape size bt ib arrF).1 ≠ bt then convertBytesToValue (sliceUint8Of v0) arch bt else v0)
+    .ok (if (readShape size bt ib arrF).1 ≠ bt then undersizedValue wrap (sliceUint8Of v0) arch bt else v0)
+
+theorem undersizedValue_false (b : List Nat) (arch bt : Nat) : undersizedValue false b arch bt = convertBytesToValue b arch bt := by
+  simp [undersizedValue]
 
 /-- the core of `decodeFields` / `decodeDeveloperFields` for one definition of non-zero size: either the field is
-undersized and the value is ONE number of the base type, or the value is a read of at least one element under the array
+undersized and the value is ONE number of the base type (as an array of one element when `wrap`), or the value is a read of at least one element under the array
 flag the decoder ends up with (`strcount` override for strings without profile entry) -/
-theorem read_core (b : List Nat) (arch size bt : Nat) (ib arrF ovr : Bool) (v : Value) (hb : Bytes b) (hlen : b.length = size)
-    (hsz : size ≠ 0) (h : readValueOf b arch size bt ib arrF ovr = .ok v) :
-    (size < btSize bt ∧ NumBt bt ∧ ∃ x, v = scalarOf bt ib x ∧ x < 256 ^ btSize bt) ∨
+theorem read_core (wrap : Bool) (b : List Nat) (arch size bt : Nat) (ib arrF ovr : Bool) (v : Value) (hb : Bytes b) (hlen : b.length = size)
+    (hsz : size ≠ 0) (h : readValueOf wrap b arch size bt ib arrF ovr = .ok v) :
+    (size < btSize bt ∧ NumBt bt ∧ ∃ x, v = (if wrap = true then sliceOf bt ib [x] else scalarOf bt ib x) ∧ x < 256 ^ btSize bt) ∨
     (btSize bt ≤ size ∧ ReadOK size bt ib (if ovr = true ∧ bt = btString then decide (strcount b > 1) else arrF) v) := by
   unfold readValueOf at h
   by_cases hu : size < btSize bt
@@ -230,7 +259,7 @@ theorem read_core (b : List Nat) (arch size bt : Nat) (ib arrF ovr : Bool) (v : 
     simp only [Res.ok.injEq] at h
     rw [if_pos hne, hv0] at h
     rw [← h]
-    exact convert_shape b arch bt ib hb hn (by omega) (by omega)
+    exact undersized_shape wrap b arch bt ib hb hn (by omega) (by omega)
   · right
     have hrs : readShape size bt ib arrF = (bt, ib, arrF) := by simp [readShape, hu]
     rw [hrs] at h
@@ -264,12 +293,19 @@ structure FieldGood (fac : Factory) (m : Nat) (d : DField) : Prop where
   nz : kfZeroV d.value = false
   nf : kfFFFDV d.value = false
   na : kfArrV (rd fac m d).1 (rd fac m d).2.1 (rd fac m d).2.2 d.value = false
-  nv : kfUndersizedF d = false → kfPiecesF d = false →
+  nv : kfPiecesF d = false →
     normalValue (rd fac m d).1 (rd fac m d).2.1 (rd fac m d).2.2 d.value = d.value
   /-- a field the factory reads as a plain one-byte number holds a `uint8` -/
   key : (fac.create m d.num).known = true → btSize (fac.create m d.num).bt = 1 → (fac.create m d.num).array = false →
     (fac.create m d.num).isBool = false → (fac.create m d.num).bt ≠ btSint8 → (fac.create m d.num).bt ≠ btString →
     ∃ x, d.value = .uint8 x
+  /-- a field the factory knows as an array holds an array (also when its definition gives it fewer bytes than one element:
+  the repair of KF-C01-undersized) -/
+  shape : d.known = true → d.array = true → isSlice d.value = true
+
+theorem sliceOf_isSlice (bt : Nat) (ib : Bool) (xs : List Nat) (hn : NumBt bt) : isSlice (sliceOf bt ib xs) = true := by
+  rcases numBt_cases bt hn with h' | h' | h' | h' | h' | h' | h' | h' | h' | h' | h' | h' | h' | h' | h' | h' <;> subst h' <;>
+    cases ib <;> simp [sliceOf, isSlice]
 
 theorem scalarOf_not_slice (bt : Nat) (ib : Bool) (x : Nat) (hn : NumBt bt) : isSlice (scalarOf bt ib x) = false := by
   rcases numBt_cases bt hn with h' | h' | h' | h' | h' | h' | h' | h' | h' | h' | h' | h' | h' | h' | h' | h' <;> subst h' <;>
@@ -284,33 +320,43 @@ theorem scalarOf_u8' (bt x : Nat) (hn : NumBt bt) (h1 : btSize bt = 1) (h2 : bt 
 theorem good_known (fac : Factory) (m num size : Nat) (bt : Nat) (ib arr : Bool) (v : Value) (hnum : num < 256) (hsz : size ≠ 0)
     (hk : (fac.create m num).known = true) (hbt : (fac.create m num).bt = bt) (hib : (fac.create m num).isBool = ib)
     (harr : (fac.create m num).array = arr)
-    (hc : (size < btSize bt ∧ NumBt bt ∧ ∃ x, v = scalarOf bt ib x ∧ x < 256 ^ btSize bt) ∨ (btSize bt ≤ size ∧ ReadOK size bt ib arr v)) :
+    (hc : (size < btSize bt ∧ NumBt bt ∧ ∃ x, v = (if arr = true then sliceOf bt ib [x] else scalarOf bt ib x) ∧ x < 256 ^ btSize bt) ∨
+      (btSize bt ≤ size ∧ ReadOK size bt ib arr v)) :
     FieldGood fac m ⟨num, bt, true, ib, arr, v, false⟩ := by
   have hrd : rd fac m ⟨num, bt, true, ib, arr, v, false⟩ = (bt, ib, arr) := by
     simp [rd, readAs, baseOf, hk, hbt, hib, harr]
   rcases hc with ⟨hu, hn, x, hx, hlt⟩ | ⟨_, hro⟩
-  · have hfs := fine_scalarOf bt hn ib x hlt
-    subst hx
-    refine ⟨hnum, rfl, hk.symm, fun _ => ⟨hbt.symm, hib.symm, harr.symm⟩, hfs.wf, hfs.nz, hfs.nf, ?_, ?_, ?_⟩
-    · rw [hrd]
+  · -- undersized: one number — in an array field the array of that one number (what a whole element decodes as)
+    have hfs : Fine bt ib arr v := by
+      subst hx
       cases arr with
-      | true => simp [kfArrV]
-      | false => exact hfs.na
-    · intro hund _
-      rw [hrd]
-      cases arr with
-      | true =>
-        exfalso
-        simp [kfUndersizedF, scalarOf_not_slice bt ib x hn] at hund
-      | false => exact hfs.nv
+      | true => exact fine_sliceOf bt hn ib [x] (by simp [allLt, hlt]) (by simp)
+      | false => exact fine_scalarOf bt hn ib x hlt
+    refine ⟨hnum, rfl, hk.symm, fun _ => ⟨hbt.symm, hib.symm, harr.symm⟩, hfs.wf, hfs.nz, hfs.nf, ?_, ?_, ?_, ?_⟩
+    · rw [hrd]; exact hfs.na
+    · intro _; rw [hrd]; exact hfs.nv
     · intro _ h1 _ _ _ _
       have h1' : btSize (fac.create m num).bt = 1 := h1
       rw [hbt] at h1'
       omega
+    · intro _ ha
+      have ha' : arr = true := ha
+      subst ha'
+      show isSlice v = true
+      rw [hx]; exact sliceOf_isSlice bt ib [x] hn
   · have hf := hro.fine
-    refine ⟨hnum, rfl, hk.symm, fun _ => ⟨hbt.symm, hib.symm, harr.symm⟩, hf.wf, hf.nz, hf.nf, ?_, ?_, ?_⟩
+    refine ⟨hnum, rfl, hk.symm, fun _ => ⟨hbt.symm, hib.symm, harr.symm⟩, hf.wf, hf.nz, hf.nf, ?_, ?_, ?_, ?_⟩
+    rotate_right
+    · intro _ ha
+      have ha' : arr = true := ha
+      show isSlice v = true
+      rcases hro with ⟨hn, ⟨_, xs, hv, _⟩ | ⟨har, _⟩⟩ | ⟨_, ⟨_, vs, hv, _⟩ | ⟨har, _⟩⟩
+      · rw [hv]; exact sliceOf_isSlice bt ib xs hn
+      · rw [ha'] at har; cases har
+      · rw [hv]; rfl
+      · rw [ha'] at har; cases har
     · rw [hrd]; exact hf.na
-    · intro _ _; rw [hrd]; exact hf.nv
+    · intro _; rw [hrd]; exact hf.nv
     · intro _ h1 ha hb' h2 h3
       rw [hbt] at h1 h2 h3
       rw [harr] at ha
@@ -338,9 +384,9 @@ theorem good_unknown (fac : Factory) (m num size bt : Nat) (arrS : Bool) (v : Va
   have fin : ∀ (arr : Bool), Fine bt false arr v → inferArray bt v = arr →
       FieldGood fac m ⟨num, bt, false, false, decide (size > btSize bt ∧ size % btSize bt = 0), v, false⟩ := by
     intro arr hf hia
-    refine ⟨hnum, rfl, hk.symm, hkn _, hf.wf, hf.nz, hf.nf, ?_, ?_, hkn _⟩
+    refine ⟨hnum, rfl, hk.symm, hkn _, hf.wf, hf.nz, hf.nf, ?_, ?_, hkn _, fun h => by cases h⟩
     · rw [hrd]; show kfArrV bt false (inferArray bt v) v = false; rw [hia]; exact hf.na
-    · intro _ _; rw [hrd]; show normalValue bt false (inferArray bt v) v = v; rw [hia]; exact hf.nv
+    · intro _; rw [hrd]; show normalValue bt false (inferArray bt v) v = v; rw [hia]; exact hf.nv
   rcases hc with ⟨hu, hn, x, hx, hlt⟩ | ⟨hge, hro⟩
   · subst hx
     exact fin false (fine_scalarOf bt hn false x hlt) (inferArray_scalarOf bt hn false x)
@@ -355,10 +401,10 @@ theorem good_unknown (fac : Factory) (m num size bt : Nat) (arrS : Bool) (v : Va
         · exact fin true (fine_strings vs hg false) (by rw [hia]; simp [h2])
         · -- fewer than two strings survive: read back in scalar mode (class `kfPiecesF`)
           have hb := strings_basic vs hg false false (Or.inr (by omega))
-          refine ⟨hnum, rfl, hk.symm, hkn _, hb.1, hb.2.1, hb.2.2.2, ?_, ?_, hkn _⟩
+          refine ⟨hnum, rfl, hk.symm, hkn _, hb.1, hb.2.1, hb.2.2.2, ?_, ?_, hkn _, fun h => by cases h⟩
           · rw [hrd]; show kfArrV btString false (inferArray btString (.sliceString vs)) (.sliceString vs) = false
             rw [hia]; simp only [h2, decide_false]; exact hb.2.2.1
-          · intro _ hp
+          · intro hp
             exfalso
             simp [kfPiecesF, shortStrs] at hp
             omega
@@ -388,7 +434,7 @@ theorem good_unknown (fac : Factory) (m num size bt : Nat) (arrS : Bool) (v : Va
 theorem interpField_some (fac : Factory) (m arch : Nat) (fd : FieldDef) (b : List Nat) (d : DField)
     (h : interpField fac m arch fd b = .ok (some d)) :
     ∃ bt ib arrF ovr v, fieldShape (fac.create m fd.num) fd = .ok (bt, ib, arrF, ovr) ∧ fd.size ≠ 0 ∧
-      readValueOf b arch fd.size bt ib arrF ovr = .ok v ∧ d = ⟨fd.num, bt, (fac.create m fd.num).known, ib, arrF, v, false⟩ := by
+      readValueOf arrF b arch fd.size bt ib arrF ovr = .ok v ∧ d = ⟨fd.num, bt, (fac.create m fd.num).known, ib, arrF, v, false⟩ := by
   unfold interpField at h
   simp only at h
   obtain ⟨⟨bt, ib, arrF, ovr⟩, hsh, h⟩ := Res.bind_ok h
@@ -409,7 +455,7 @@ theorem interpField_good (fac : Factory) (m arch : Nat) (fd : FieldDef) (b : Lis
     (hb : Bytes b) (hlen : b.length = fd.size) (hnum : fd.num < 256) (hbt : btValid fd.bt = true)
     (h : interpField fac m arch fd b = .ok (some d)) : FieldGood fac m d := by
   obtain ⟨bt, ib, arrF, ovr, v, hsh, hsz, hrv, rfl⟩ := interpField_some fac m arch fd b d h
-  have hcore := read_core b arch fd.size bt ib arrF ovr v hb hlen hsz hrv
+  have hcore := read_core arrF b arch fd.size bt ib arrF ovr v hb hlen hsz hrv
   cases hk : (fac.create m fd.num).known with
   | true =>
     rw [fieldShape_known _ fd hk] at hsh
@@ -427,8 +473,11 @@ theorem interpField_good (fac : Factory) (m arch : Nat) (fd : FieldDef) (b : Lis
     rw [hpb] at h2
     subst h2 h3 h4
     refine good_unknown fac m fd.num fd.size fd.bt (decide (strcount b > 1)) v hnum hk hbt ?_
-    rcases hcore with hu | ⟨hge, hro⟩
-    · exact Or.inl hu
+    rcases hcore with ⟨hu, hn, x, hx, hlt⟩ | ⟨hge, hro⟩
+    · -- the array flag of a field without profile entry is false when the size is below one element
+      have hna : ¬ (fd.size > btSize fd.bt ∧ fd.size % btSize fd.bt = 0) := by omega
+      simp only [hna, decide_false, Bool.false_eq_true, if_false] at hx
+      exact Or.inl ⟨hu, hn, x, hx, hlt⟩
     · refine Or.inr ⟨hge, ?_⟩
       by_cases hs : fd.bt = btString
       · simpa [hs] using hro
@@ -582,11 +631,12 @@ theorem interpDev_good (arch : Nat) (dd : DevDef) (fdsc : Desc) (b : List Nat) (
       rw [← harr]; simp [hgt]
   have hpb : decide (fdsc.bt &&& baseTypeNumMask = profileBool) = false := numBt_notBool fdsc.bt hv
   rw [hpb] at hval h
-  have hrv : readValueOf b arch dd.size fdsc.bt false arr (decide (fdsc.bt = btString)) = .ok
+  have hrv : readValueOf false b arch dd.size fdsc.bt false arr (decide (fdsc.bt = btString)) = .ok
       (if (readShape dd.size fdsc.bt false arr).1 ≠ fdsc.bt then convertBytesToValue (sliceUint8Of v0) arch fdsc.bt else v0) := by
     unfold readValueOf
-    rw [hval]; rfl
-  have hcore := read_core b arch dd.size fdsc.bt false arr _ _ hb hlen hsz hrv
+    rw [hval]; simp only [undersizedValue_false]; rfl
+  have hcore := read_core false b arch dd.size fdsc.bt false arr _ _ hb hlen hsz hrv
+  simp only [Bool.false_eq_true, if_false] at hcore
   rw [← h]
   refine dev_good dd.num dd.idx dd.size fdsc.bt (decide (strcount b > 1)) _ hnum hidx hv ?_
   rcases hcore with hu | ⟨hge, hro⟩
